@@ -50,8 +50,15 @@ where
 
     #[inline]
     fn update_stats_remove(&mut self, old_value: T) {
+        if self.count <= 1 {
+            // Removing the only sample empties the window.
+            self.mean = T::zero();
+            self.m2 = T::zero();
+            self.count = 0;
+            return;
+        }
         let delta = old_value - self.mean;
-        self.mean = self.mean - (delta / T::from(self.count).unwrap());
+        self.mean = self.mean - (delta / T::from(self.count - 1).unwrap());
         self.m2 = self.m2 - (delta * (old_value - self.mean));
         self.count -= 1;
     }
